@@ -113,6 +113,7 @@ def roundP (env : Env) (x : PyFloat) (p : Nat) : PyFloat :=
 /-- `Random.random_float(start, end, precision)` (after fix F8). -/
 def randomFloat (env : Env) (start stop : PyFloat) (startDec stopDec : Option Rat) (prec : Option Nat) : G PyFloat :=
   if PyFloat.lt stop start then G.fail .valueError else
+  if PyFloat.eq start stop then pure start else      -- `if start == end: return float(start)` (fix F20)
   match prec with
   | none => uniform env start stop
   | some p => do
@@ -121,6 +122,22 @@ def randomFloat (env : Env) (start stop : PyFloat) (startDec stopDec : Option Ra
     let k ← randint l r
     let res := env.fl ((k : Rat) / ((10 ^ p : Nat) : Rat))
     pure (roundP env res p)
+
+/-- the effective (bound, decimal companion) pairs `Generator.visit_float` hands to `random_float`: declared bounds, or
+    the defaults widened so that they never fall on the wrong side of a declared bound (fix F7); an infinite bound on its
+    own side bounds nothing (fix F20: `has_min`, `has_max`) -/
+def floatRange (mn mx : Option PyFloat) (mnDec mxDec : Option Rat) : (PyFloat × Option Rat) × (PyFloat × Option Rat) :=
+  let hasMin := match mn with | some .ninf => false | some _ => true | none => false
+  let hasMax := match mx with | some .pinf => false | some _ => true | none => false
+  let lo0 : PyFloat × Option Rat := match mn with
+    | some m => if hasMin then (m, mnDec) else (.fin Consts.FLOAT_MIN, some Consts.FLOAT_MIN_DEC)
+    | none => (.fin Consts.FLOAT_MIN, some Consts.FLOAT_MIN_DEC)
+  let hi0 : PyFloat × Option Rat := match mx with
+    | some m => if hasMax then (m, mxDec) else (.fin Consts.FLOAT_MAX, some Consts.FLOAT_MAX_DEC)
+    | none => (.fin Consts.FLOAT_MAX, some Consts.FLOAT_MAX_DEC)
+  let hi := if !hasMax then (if PyFloat.lt hi0.1 lo0.1 then lo0 else hi0) else hi0
+  let lo := if !hasMin then (if PyFloat.lt hi.1 lo0.1 then hi else lo0) else lo0
+  (lo, hi)
 
 /-! ### regex generation (`RegexGenerator`) -/
 
@@ -212,10 +229,7 @@ def genScalar (env : Env) : ScalarS → G PyVal
       pure (.int n)
   | .float (some v) _ _ _ _ _ => pure (.float v)
   | .float none mn mx prec mnDec mxDec => do
-      let lo0 : PyFloat × Option Rat := match mn with | some m => (m, mnDec) | none => (.fin Consts.FLOAT_MIN, some Consts.FLOAT_MIN_DEC)
-      let hi0 : PyFloat × Option Rat := match mx with | some m => (m, mxDec) | none => (.fin Consts.FLOAT_MAX, some Consts.FLOAT_MAX_DEC)
-      let hi := if mx.isNone then (if PyFloat.lt hi0.1 lo0.1 then lo0 else hi0) else hi0
-      let lo := if mn.isNone then (if PyFloat.lt hi.1 lo0.1 then hi else lo0) else lo0
+      let (lo, hi) := floatRange mn mx mnDec mxDec
       let f ← randomFloat env lo.1 hi.1 lo.2 hi.2 prec
       pure (.float f)
   | .str (some v) _ _ _ _ => pure (.str v)
